@@ -138,6 +138,12 @@ class MemMixin:
         if isinstance(v, VVec) and ety is not None and idx is not None and v.name and self.T(ety)["k"] == "adt":
             # deterministic symbolic element: repeated reads of the same element agree
             return self.symval(st, ety, "%s[%s]" % (v.name, idx))
+        if isinstance(v, VVec) and v.name and idx is not None and (ety is None or self.T(ety)["k"] == "int"):
+            nm = "%s[%r]" % (v.name, idx)
+            if not hasattr(self, "elem_syms"):
+                self.elem_syms = {}
+            self.elem_syms[nm] = (v.name, idx if isinstance(idx, Lin) else Lin.const(idx), ("vec", v.name))
+            return self.named_int(ety if ety is not None else self.u8_ty(), nm)
         if isinstance(v, VArr) and v.name and idx is not None:
             # deterministic, provenance-carrying element of an opaque array (e.g. an MD5 digest)
             nm = "%s[%r]" % (v.name, idx)
